@@ -1,12 +1,12 @@
 //@ unit base64_roundtrip
 //@ props C09 C01
 //@ kind B
-//@ def quick NX=4
+//@ def quick NX=3
 //@ def thorough NX=7
-//@ cbmc quick --unwind 12 --unwinding-assertions
+//@ cbmc quick --unwind 8 --unwinding-assertions
 //@ cbmc thorough --unwind 16 --unwinding-assertions
 //@ entry h_base64_roundtrip
-//@ note B: bounded stand-in -- every octet string x of length 1..NX (quick 4 = one full group plus each padding shape, thorough 7): decode(encode(x)) == x with the default conformance mode (Conf_RFC2045; encode() ends every line with #xA, which only that mode skips), encode(x) is a base64Binary literal per the specification decoder (spec_base64_decode) denoting x, terminated, inside its allocation. A stand-in because line wrapping (quadsPerLine = 15 groups) is out of reach of these lengths.
+//@ note B: bounded stand-in -- every octet string x of length 1..NX (quick 3 = each padding shape and one full group, thorough 7 = two groups plus each padding shape): decode(encode(x)) == x with the default conformance mode (Conf_RFC2045; encode() ends every line with #xA, which only that mode skips), encode(x) is a base64Binary literal per the specification decoder (spec_base64_decode) denoting x, terminated, inside its allocation. A stand-in because line wrapping (quadsPerLine = 15 groups) is out of reach of these lengths.
 //@ note allocation model as in base64_decode (verif_alloc: fresh object of exactly n bytes, never fails; frees and janitors dropped)
 #define VERIF_DEFINE_GHOSTS
 #include <stdlib.h>
